@@ -23,6 +23,13 @@ for d in sorted(glob.glob('/verif/seeded/*')):
                     m.get('what_it_needs_to_manifest', '')[:150].replace('|', '/'),
                     'caught (rc=1)' if c['rc'] == 1 and c['n_violations'] else 'MISSED (rc=%s)' % c['rc'],
                     ('; '.join(how) + ('; e.g. ' + first if first else '')).replace('|', '/')))
-print('| seed | change | needs | ./check %s | how |' % 'Cxx')
-print('|---|---|---|---|---|')
-print('\n'.join(rows))
+import sys
+table = '| seed | change | needs | ./check %s | how |\n|---|---|---|---|---|\n' % 'Cxx' + '\n'.join(rows)
+if '--design' in sys.argv:
+    dp = '/verif/DESIGN.md'
+    t = open(dp).read()
+    b, e = '<!-- SEEDTABLE:BEGIN -->', '<!-- SEEDTABLE:END -->'
+    t = t[:t.index(b) + len(b)] + '\n' + table + '\n' + t[t.index(e):]
+    open(dp, 'w').write(t)
+else:
+    print(table)
